@@ -49,6 +49,8 @@ type Req struct {
 	PreDoc      string     `json:"predoc,omitempty"`    // mkdir/verify in a worker-owned jail: directories made (simple mode) before the call
 	NodeIdx     int        `json:"nodeidx,omitempty"`   // From-Root: operate on the k-th node in pre-order instead of the root (-1: nil)
 	PreOps      []string   `json:"preops,omitempty"`    // From-Root: operations performed on the same tree first ("output", "walk", "walkiter", "json", "massive-output", "mkdir-elsewhere", "dry-color")
+	JailIn      string     `json:"jailin,omitempty"`    // (set by the worker for Par) the jail of this request, instead of a fresh temporary directory
+	RelJail     bool       `json:"reljail,omitempty"`   // ... and its targets are handed over RELATIVE to the current directory (the jail's parent)
 	WBig        int        `json:"wbig,omitempty"`      // the writer sleeps this many microseconds inside every Write of 1 KiB or more (what a buffered writer flushes), outside its own lock
 	Par         []Req      `json:"par,omitempty"`       // run these requests at the same time (one goroutine each) in this worker; the reply carries theirs in Sub
 	Stall       *Stall     `json:"stall,omitempty"`     // back-pressure: the sink is held until the splitter is handing over its last block, then something happens
